@@ -89,7 +89,7 @@ let handle (p : string) : string =
         let own = q.q_dst = uid in
         if kind = "dummy" && own && int_of_n q.q_sub = 0 && known_testdata q then begin
           bad := Printf.sprintf "%d:11" i :: !bad; known := "C13-testdata-over-231" :: !known end
-        else if kind = "dimmer" && flag && own && int_of_n q.q_sub = 0xffff && int_of_n q.q_cc = 0x30
+        else if String.length kind >= 6 && String.sub kind 0 6 = "dimmer" && flag && own && int_of_n q.q_sub = 0xffff && int_of_n q.q_cc = 0x30
                 && (int_of_n q.q_pid = pid_start_address || int_of_n q.q_pid = pid_personality) then begin
           bad := Printf.sprintf "%d:13" i :: !bad; known := "C13-fanout-mixed-nack" :: !known end)
       reqs;
